@@ -16,8 +16,8 @@ from common import *
 import qmeta
 
 
-def build(rng, dt):
-    kind = rng.choice(["mlp", "conv", "ln-mlp", "bigconv"])
+def build(rng, dt, kind=None):
+    kind = kind or rng.choice(["mlp", "conv", "ln-mlp", "bigconv"])
     if kind == "bigconv":
         # per-output element counts above 128: the low-bit weights are quantized group-wise
         m = torch.nn.Sequential(torch.nn.Conv2d(32, 4, 3, padding=1), torch.nn.ReLU(), torch.nn.Conv2d(4, 2, (1, 1)), torch.nn.Flatten(), torch.nn.Linear(2 * 4 * 4, 3))
@@ -85,17 +85,30 @@ def run(ctx):
     rng = ctx.rng
     ctx.extra["rule"] = ("seeded models (Linear / Conv2d / LayerNorm stacks), weights in all six qtypes (per-axis and automatically grouped), activations None/qint8/qfloat8 (calibrated), dtype float32/float16/bfloat16, "
                          "frozen or not, serializer pickle / weights_only / safetensors, target same-quantized (also frozen beforehand, or loaded twice) / default-quantized / requantize(), one or two save-load cycles. distinct = the configuration tuple; non-trivial = all")
-    n = 120 if not ctx.thorough else 4000
+    n = 60 if not ctx.thorough else 4000
     lines, expect = [], []
-    for _ in range(n):
+    # every run: the whole grid model kind x weight family x frozen x target (activations, serializer and dtype rotate),
+    # then seeded random configurations
+    grid = []
+    for kind_ in ("mlp", "conv", "ln-mlp", "bigconv"):
+        for wq_ in ("qint2", "qint4", "qint8", "qfloat8"):
+            for frozen_ in (True, False):
+                for target_ in ["same", "default", "requantize"] + (["same-frozen", "same-loaded-twice"] if frozen_ else []):
+                    k_ = len(grid)
+                    grid.append((kind_, wq_, frozen_, target_, [None, "qint8", None, "qfloat8_e4m3fn"][k_ % 4], ["pickle", "weights_only", "safetensors"][k_ % 3]))
+    for ci in range(len(grid) + n):
         dt = rng.choice([torch.float32, torch.float16, torch.bfloat16])
         torch.manual_seed(rng.getrandbits(30))
-        kind, model, shape = build(rng, dt)
-        wq = rng.choice(["qint2", "qint4", "qint8", "qfloat8", "qfloat8_e4m3fn", "qfloat8_e5m2"])
-        aq = rng.choice([None, None, "qint8", "qfloat8_e4m3fn"])
-        frozen = rng.random() < 0.7
-        how = rng.choice(["pickle", "weights_only", "safetensors"])
-        target = rng.choice(["same", "default", "requantize"] + (["same-frozen", "same-loaded-twice"] if frozen else []))
+        if ci < len(grid):
+            kind_, wq, frozen, target, aq, how = grid[ci]
+            kind, model, shape = build(rng, dt, kind_)
+        else:
+            kind, model, shape = build(rng, dt)
+            wq = rng.choice(["qint2", "qint4", "qint8", "qfloat8", "qfloat8_e4m3fn", "qfloat8_e5m2"])
+            aq = rng.choice([None, None, "qint8", "qfloat8_e4m3fn"])
+            frozen = rng.random() < 0.7
+            how = rng.choice(["pickle", "weights_only", "safetensors"])
+            target = rng.choice(["same", "default", "requantize"] + (["same-frozen", "same-loaded-twice"] if frozen else []))
         cfg = {"kind": kind, "weights": wq, "activations": aq, "dtype": str(dt), "frozen": frozen, "serializer": how, "target": target}
         fresh = arch(kind, dt, model)
         other = arch(kind, dt, model) if target == "same-loaded-twice" else None
